@@ -92,6 +92,9 @@ fn tok_profile(profile: &str, seed: u64, n: usize, out: &mut dyn Write) {
                 // +-60000 (i32), so that prefix costs at one boundary differ by more than 2^15 and connection costs leave i16
                 if rng.chance(1, 5) {
                     cfg.cost_mag = 30000;
+                    if rng.chance(1, 2) {
+                        cfg.kind = Some(1);
+                    }
                 }
             }
             "c06" | "c08" => {
